@@ -1211,8 +1211,11 @@ pub fn check_c07_always(cx: &Ctx, ix: &Index) -> Report {
     for (pos, ev) in cx.log.iter().enumerate() {
         match &ev.kind {
             Kind::FrameIn { frame } => {
-                if let Some(CMsg::Sync(d, _)) = frame.cons() {
-                    requests.entry((frame.route.src, frame.route.dst)).or_default().push(d.clone());
+                if let Some(CMsg::Sync(d, origin)) = frame.cons() {
+                    // The helper answers to the address of the origin named in the request, whoever
+                    // relayed the frame (a Byzantine node may replay an honest node's request).
+                    let who = cx.topo.index_of(origin).unwrap_or(frame.route.src);
+                    requests.entry((who, frame.route.dst)).or_default().push(d.clone());
                     r.count("C07.sync_requests_delivered", 1);
                 }
             }
